@@ -76,6 +76,8 @@ def modified_paths(engine, body):
                 for it in node.items:
                     if it.optional_vars is not None:
                         targets(it.optional_vars)
+            elif isinstance(node, (ast.Yield, ast.YieldFrom)):
+                names.add("__yields__")  # the hidden list of yielded values grows
             elif isinstance(node, ast.Call) and isinstance(node.func, ast.Attribute):
                 meth = node.func.attr
                 rp = _root_path(node.func.value)
